@@ -133,7 +133,7 @@ impl<'a> G<'a> {
         let groups = self.r.range(1, 3);
         for gi in 0..groups {
             let last = gi + 1 == groups;
-            match self.r.below(6) {
+            match self.r.below(7) {
                 0 | 1 => { let n = self.name(); let (t, v, l) = self.gen(depth - 1, greedy && last); tf.push((n.clone(), t)); vf.push((n, v)); len += l; }
                 2 => {
                     // size-dependent field: len field, optionally something in between, then the sized field
@@ -160,6 +160,19 @@ impl<'a> G<'a> {
                     // when the template's own flag value (0) skips too the template default stays; the
                     // value side keeps the template for a skipped field
                     if skipped { tf.push((sn.clone(), t.clone())); vf.push((sn, t)); } else { tf.push((sn.clone(), t)); vf.push((sn, val)); len += l; }
+                }
+                6 => {
+                    // two skip requests pending at the same time: a may skip c, b may skip d
+                    let (an, bn, cn, dn) = (self.name(), self.name(), self.name(), self.name());
+                    let (va, vb) = (self.r.byte(), self.r.byte());
+                    let (seta, setb) = (*self.r.pick(&[1u64, 2]), *self.r.pick(&[1u64, 4]));
+                    let fa = OptFn::SkipIf(cn.clone(), seta, 0); let fb = OptFn::SkipIf(dn.clone(), setb, 0);
+                    tf.push((an.clone(), Sh::Dyn(Box::new(Sh::U8(0)), fa.clone()))); vf.push((an, Sh::Dyn(Box::new(Sh::U8(va)), fa))); len += 1;
+                    tf.push((bn.clone(), Sh::Dyn(Box::new(Sh::U8(0)), fb.clone()))); vf.push((bn, Sh::Dyn(Box::new(Sh::U8(vb)), fb))); len += 1;
+                    let (tc, vc, lc) = self.int();
+                    if va as u64 & seta == 0 { tf.push((cn.clone(), tc.clone())); vf.push((cn, tc)); } else { tf.push((cn.clone(), tc)); vf.push((cn, vc)); len += lc; }
+                    let (td, vd, ld) = self.int();
+                    if vb as u64 & setb == 0 { tf.push((dn.clone(), td.clone())); vf.push((dn, td)); } else { tf.push((dn.clone(), td)); vf.push((dn, vd)); len += ld; }
                 }
                 5 => {
                     // skip chain: a may skip b, and b - itself a flag field - may skip c; the option of
